@@ -106,7 +106,7 @@ InitPc(typ, ph) == IF typ \in {"pin", "unpin"} /\ ph = "queued" THEN "new"
                    ELSE IF typ = "remote" /\ ph = "inprogress" THEN "rnew" ELSE "-"
 
 NewOp(c, typ, ph) == [cid |-> c, type |-> typ, phase |-> ph, cancelled |-> FALSE, replaced |-> FALSE,
-                      pc |-> InitPc(typ, ph), seen |-> {}]
+                      pc |-> IF T THEN InitPc(typ, ph) ELSE "-", seen |-> {}]
 
 Cancelled(i) == ops[i].cancelled \/ down
 QOf(typ)     == IF typ = "unpin" THEN unpinQ ELSE pinQ
